@@ -1,27 +1,973 @@
-//! C04 — stub, not built yet.
+//! C04 Offsets resolve to exactly the addressed codepoints, or are rejected.
+//!
+//! A case is a text plus a chain of 1-4 offsets ("links"); the first is applied to the resource, each
+//! next one relative to the text of the last accepted annotation. The oracle is integer arithmetic on
+//! `Vec<char>`: resolve both cursors against the parent's length, accept iff `0 <= b <= e <= len`.
+//! Shared pieces (`Link`, `Cur`, the text alphabet, the oracle helpers) are also used by C12.
 
 use crate::engine::*;
 use proptest::prelude::*;
+use serde::{Deserialize, Serialize};
+use stam::*;
+use std::collections::BTreeMap;
+use std::sync::atomic::{AtomicU64, Ordering};
 
 pub struct C04;
 
+// ------------------------------------------------------------------------------------------------
+// generators shared with C12
+
+/// 1-, 2-, 3- and 4-byte codepoints
+pub const ALPHABET: [char; 14] = ['a', 'b', 'c', ' ', 'x', 'é', 'ß', 'ñ', '€', '語', 'ア', '😀', '𝄞', '\u{301}'];
+
+pub fn char_strategy() -> BoxedStrategy<char> {
+    prop_oneof![
+        5 => (0usize..5).prop_map(|i| ALPHABET[i]),
+        3 => (5usize..8).prop_map(|i| ALPHABET[i]),
+        3 => (8usize..11).prop_map(|i| ALPHABET[i]),
+        3 => (11usize..13).prop_map(|i| ALPHABET[i]),
+        1 => Just(ALPHABET[13]),
+    ]
+    .boxed()
+}
+
+/// texts of 0..=max codepoints; empty, very short and pure-ASCII texts are boosted a little
+pub fn text_strategy(max: usize) -> BoxedStrategy<String> {
+    prop_oneof![
+        1 => Just(String::new()),
+        3 => proptest::collection::vec(char_strategy(), 1..=3).prop_map(|v| v.into_iter().collect::<String>()),
+        2 => proptest::collection::vec((0usize..5).prop_map(|i| ALPHABET[i]), 0..=max).prop_map(|v| v.into_iter().collect::<String>()),
+        18 => proptest::collection::vec(char_strategy(), 0..=max).prop_map(|v| v.into_iter().collect::<String>()),
+    ]
+    .boxed()
+}
+
+/// One cursor of a link, expressed relative to the (not yet known) length of the parent text:
+/// position `p = pick(idx, len+1)` if `out == 0`, `len + out` if `out > 0`, `out` (negative: before the
+/// beginning) if `out < 0`; `ea` asks for an end-aligned cursor (value `p - len`). A position before the
+/// beginning can only be written end-aligned and a position beyond the end only begin-aligned (end-aligned
+/// cursors are documented as "0 or lower"), so `ea` is overridden in those two cases.
+#[derive(Clone, Debug, Serialize, Deserialize, PartialEq)]
+pub struct Pos {
+    pub idx: u16,
+    pub out: i8,
+    pub ea: bool,
+}
+
+#[derive(Clone, Debug, Serialize, Deserialize, PartialEq)]
+pub struct Link {
+    pub begin: Pos,
+    pub end: Pos,
+    /// swap the two positions when begin would lie after end (valid-by-construction unless `out != 0`)
+    pub sorted: bool,
+    /// zero-width: end position = begin position
+    pub zw: bool,
+}
+
+pub fn pos_strategy() -> impl Strategy<Value = Pos> {
+    (
+        prop_oneof![6 => any::<u16>(), 1 => Just(0u16), 1 => Just(u16::MAX)],
+        prop_oneof![30 => Just(0i8), 1 => Just(1i8), 1 => Just(2i8), 1 => Just(3i8), 1 => Just(-1i8), 1 => Just(-3i8)],
+        any::<bool>(),
+    )
+        .prop_map(|(idx, out, ea)| Pos { idx, out, ea })
+}
+
+pub fn link_strategy() -> impl Strategy<Value = Link> {
+    (pos_strategy(), pos_strategy(), prop_oneof![9 => Just(true), 1 => Just(false)], prop_oneof![7 => Just(false), 1 => Just(true)]).prop_map(|(begin, end, sorted, zw)| Link {
+        begin,
+        end,
+        sorted,
+        zw,
+    })
+}
+
+// ------------------------------------------------------------------------------------------------
+// oracle: plain integers
+
+/// a cursor as the oracle sees it
+#[derive(Clone, Copy, Debug, PartialEq, Eq)]
+pub enum Cur {
+    B(usize),
+    E(i64),
+}
+
+impl Cur {
+    /// position denoted in a text of `len` codepoints (may be negative or beyond len)
+    pub fn pos(&self, len: usize) -> i64 {
+        match self {
+            Cur::B(x) => *x as i64,
+            Cur::E(x) => len as i64 + *x,
+        }
+    }
+    pub fn to_stam(&self) -> Cursor {
+        match self {
+            Cur::B(x) => Cursor::BeginAligned(*x),
+            Cur::E(x) => Cursor::EndAligned(*x as isize),
+        }
+    }
+    pub fn from_stam(c: &Cursor) -> Cur {
+        match c {
+            Cursor::BeginAligned(x) => Cur::B(*x),
+            Cursor::EndAligned(x) => Cur::E(*x as i64),
+        }
+    }
+    pub fn wellformed(&self) -> bool {
+        match self {
+            Cur::B(_) => true,
+            Cur::E(x) => *x <= 0,
+        }
+    }
+    pub fn is_end(&self) -> bool {
+        matches!(self, Cur::E(_))
+    }
+}
+
+pub fn mode_name(b: &Cur, e: &Cur) -> &'static str {
+    match (b.is_end(), e.is_end()) {
+        (false, false) => "BB",
+        (false, true) => "BE",
+        (true, false) => "EB",
+        (true, true) => "EE",
+    }
+}
+
+pub const MODES: [(OffsetMode, &str); 4] = [
+    (OffsetMode::BeginBegin, "BB"),
+    (OffsetMode::BeginEnd, "BE"),
+    (OffsetMode::EndBegin, "EB"),
+    (OffsetMode::EndEnd, "EE"),
+];
+
+fn conceptual(p: &Pos, len: usize) -> i64 {
+    if p.out == 0 {
+        pick(p.idx, len + 1) as i64
+    } else if p.out > 0 {
+        len as i64 + p.out as i64
+    } else {
+        p.out as i64
+    }
+}
+
+fn make_cur(p: i64, ea: bool, len: usize) -> Cur {
+    let ea = if p < 0 {
+        true
+    } else if p > len as i64 {
+        false
+    } else {
+        ea
+    };
+    if ea {
+        Cur::E(p - len as i64)
+    } else {
+        Cur::B(p as usize)
+    }
+}
+
+/// concrete cursors of a link against a parent text of `len` codepoints
+pub fn resolve_link(link: &Link, len: usize) -> (Cur, Cur) {
+    let mut pb = conceptual(&link.begin, len);
+    let mut pe = conceptual(&link.end, len);
+    if link.zw {
+        pe = pb;
+    } else if link.sorted && pb > pe {
+        std::mem::swap(&mut pb, &mut pe);
+    }
+    (make_cur(pb, link.begin.ea, len), make_cur(pe, link.end.ea, len))
+}
+
+/// the range (relative to the parent) an offset denotes, if it is one: 0 <= b <= e <= len
+pub fn oracle_range(b: &Cur, e: &Cur, len: usize) -> Option<(usize, usize)> {
+    let (pb, pe) = (b.pos(len), e.pos(len));
+    if 0 <= pb && pb <= pe && pe <= len as i64 {
+        Some((pb as usize, pe as usize))
+    } else {
+        None
+    }
+}
+
+/// why an offset is not a range (first applicable class)
+pub fn invalid_class(b: &Cur, e: &Cur, len: usize) -> &'static str {
+    let (pb, pe) = (b.pos(len), e.pos(len));
+    if pb < 0 || pe < 0 {
+        "before-begin"
+    } else if pb > len as i64 && pe > len as i64 {
+        "both-beyond-end"
+    } else if pb > len as i64 {
+        "begin-beyond-end"
+    } else if pe > len as i64 {
+        "end-beyond-end"
+    } else {
+        "inverted"
+    }
+}
+
+pub fn valid_shape(r: (usize, usize), len: usize) -> &'static str {
+    if len == 0 {
+        "empty-parent"
+    } else if r == (0, len) {
+        "whole"
+    } else if r.0 == r.1 {
+        if r.0 == 0 {
+            "zero-width-at-begin"
+        } else if r.0 == len {
+            "zero-width-at-end"
+        } else {
+            "zero-width-inside"
+        }
+    } else {
+        "proper"
+    }
+}
+
+/// the offset expressing the relative range `r` within a parent of `len` codepoints in the given mode
+pub fn offset_in_mode(r: (usize, usize), len: usize, mode: &str) -> (Cur, Cur) {
+    let b = if mode.as_bytes()[0] == b'B' { Cur::B(r.0) } else { Cur::E(r.0 as i64 - len as i64) };
+    let e = if mode.as_bytes()[1] == b'B' { Cur::B(r.1) } else { Cur::E(r.1 as i64 - len as i64) };
+    (b, e)
+}
+
+pub fn stam_offset(b: &Cur, e: &Cur) -> Offset {
+    Offset::new(b.to_stam(), e.to_stam())
+}
+
+pub fn slice(text: &[char], r: (usize, usize)) -> String {
+    text[r.0..r.1].iter().collect()
+}
+
+pub fn err_name(e: &StamError) -> String {
+    // variant name only (the payload carries values)
+    let s = format!("{:?}", e);
+    s.split(|c: char| !c.is_alphanumeric()).next().unwrap_or("").to_string()
+}
+
+// ------------------------------------------------------------------------------------------------
+
+#[derive(Clone, Debug, Serialize, Deserialize)]
+pub struct Case {
+    pub text: String,
+    pub links: Vec<Link>,
+    /// also write the store as STAM CSV (file I/O) and check the offsets found there
+    pub csv: bool,
+}
+
+static CSV_COUNTER: AtomicU64 = AtomicU64::new(0);
+
+fn scratch_dir() -> std::path::PathBuf {
+    let base = std::env::var("VERIF_TMP")
+        .map(std::path::PathBuf::from)
+        .unwrap_or_else(|_| std::env::temp_dir().join(format!("stamverif-{}", std::process::id())));
+    let n = CSV_COUNTER.fetch_add(1, Ordering::Relaxed);
+    base.join(format!("c04-{}", n))
+}
+
+/// what the oracle knows about one accepted link
+struct Accepted {
+    id: String,
+    handle: AnnotationHandle,
+    /// absolute range of the parent text
+    parent: (usize, usize),
+    /// absolute range
+    abs: (usize, usize),
+    /// the offset as given
+    given: (Cur, Cur),
+    on_resource: bool,
+}
+
+/// Check that an offset reported by the library is well-formed and denotes `rel` within a parent of `plen`.
+fn check_reported(out: &mut Outcome, entry: &str, target: &str, o: &Offset, want_mode: Option<&str>, rel: (usize, usize), plen: usize, context: &str) {
+    let (b, e) = (Cur::from_stam(&o.begin), Cur::from_stam(&o.end));
+    let m = mode_name(&b, &e);
+    out.checks += 2;
+    if !b.wellformed() || !e.wellformed() {
+        out.fail(
+            "report.wellformed",
+            format!("{}|{}|{}", entry, target, m),
+            format!("{}: {} reported {:?}: an end-aligned cursor is positive", context, entry, o),
+        );
+    }
+    if let Some(w) = want_mode {
+        out.checks += 1;
+        if w != m {
+            out.fail("report.mode", format!("{}|{}|{}", entry, target, w), format!("{}: {} was asked for mode {} but reported {:?}", context, entry, w, o));
+        }
+    }
+    let got = oracle_range(&b, &e, plen);
+    if got != Some(rel) {
+        out.fail(
+            &format!("report.resolve.{}", want_mode.unwrap_or(m)),
+            format!("{}|{}", entry, target),
+            format!("{}: {} reported {:?} which denotes {:?} in a parent of {} codepoints, expected {:?}", context, entry, o, got, plen, rel),
+        );
+    }
+}
+
+fn parse_json_cursor(v: &serde_json::Value) -> Option<Cur> {
+    let t = v.get("@type")?.as_str()?;
+    let val = v.get("value")?.as_i64()?;
+    match t {
+        "BeginAlignedCursor" if val >= 0 => Some(Cur::B(val as usize)),
+        "EndAlignedCursor" => Some(Cur::E(val)),
+        _ => None,
+    }
+}
+
+/// split one CSV record (no embedded newlines in our data) honouring double quotes
+fn split_csv_line(line: &str) -> Vec<String> {
+    let mut out = vec![];
+    let mut cur = String::new();
+    let mut inq = false;
+    let mut chars = line.chars().peekable();
+    while let Some(c) = chars.next() {
+        if inq {
+            if c == '"' {
+                if chars.peek() == Some(&'"') {
+                    cur.push('"');
+                    chars.next();
+                } else {
+                    inq = false;
+                }
+            } else {
+                cur.push(c);
+            }
+        } else if c == '"' {
+            inq = true;
+        } else if c == ',' {
+            out.push(std::mem::take(&mut cur));
+        } else {
+            cur.push(c);
+        }
+    }
+    out.push(cur);
+    out
+}
+
+fn parse_csv_cursor(s: &str) -> Option<Cur> {
+    // STAM CSV: a leading '-' (including "-0") marks an end-aligned cursor
+    if let Some(rest) = s.strip_prefix('-') {
+        rest.parse::<i64>().ok().map(|v| Cur::E(-v))
+    } else {
+        s.parse::<usize>().ok().map(Cur::B)
+    }
+}
+
 impl Property for C04 {
-    type Case = u8;
+    type Case = Case;
     fn id(&self) -> &'static str {
         "C04"
     }
     fn rule(&self) -> String {
-        "not built yet".into()
+        "case = text of 0-40 codepoints over 1-4 byte characters + a chain of 1-4 links; link 1 is a TextSelector offset on the resource, every next link an AnnotationSelector offset relative to the last accepted annotation. Each cursor is begin- or end-aligned and placed at a position drawn from [-3, len+3] of its parent text (out-of-range ~14% per cursor, unsorted pairs 10%, zero-width 12%, positions 0 and len boosted). Oracle: 0<=b<=e<=len decides accept/reject for annotate, FindText::textselection, Text::text_by_offset and the low-level textselection_by_offset routines; accepted annotations must have exactly the addressed characters; every reported offset (Selector::offset, offset_with_mode x4, TextSelection::relative_offset x4, JSON, CSV) must be well-formed and denote the same absolute range. Non-trivial = non-ASCII text and (an end-aligned cursor or an accepted link at depth >= 2 or a rejected offset); distinct = distinct case JSON.".into()
     }
-    fn cases(&self, _tier: Tier) -> u64 {
-        0
+    fn assumptions(&self) -> Vec<String> {
+        vec![
+            "positive end-aligned cursors are never given as input (Cursor::EndAligned is documented as 'a value of 0 or lower'); behaviour for them is don't care".into(),
+            "a rejected request is only required to return Err and to add no annotation and no malformed text selection; leftovers of a failed annotate (data, keys, valid selections) are C14's subject".into(),
+            "offsets are looked up in the CSV output only for the 10% of cases that write files".into(),
+        ]
     }
-    fn strategy(&self, _tier: Tier) -> BoxedStrategy<u8> {
-        any::<u8>().boxed()
+    fn cases(&self, tier: Tier) -> u64 {
+        tier.pick(40_000, 1_000_000)
     }
-    fn run(&self, _case: &u8) -> Outcome {
-        let mut o = Outcome::new();
-        o.skip("not built");
-        o
+    fn strategy(&self, _tier: Tier) -> BoxedStrategy<Case> {
+        (text_strategy(40), proptest::collection::vec(link_strategy(), 1..=4), prop_oneof![9 => Just(false), 1 => Just(true)])
+            .prop_map(|(text, links, csv)| Case { text, links, csv })
+            .boxed()
+    }
+    fn enumerate(&self, _tier: Tier) -> Vec<Case> {
+        // every cursor pair over positions [-1, len+1] x alignments on tiny texts, at depth 1 and (under a
+        // fixed valid parent) depth 2
+        let mut v = vec![];
+        for text in ["", "é", "a😀", "語ßx"] {
+            let n = text.chars().count();
+            let positions: Vec<(u16, i8)> = (0..=n)
+                .map(|p| ((((p as u32) << 16) / (n as u32 + 1) + if p > 0 { 1 } else { 0 }).min(65535) as u16, 0i8))
+                .chain([(0u16, -1i8), (0u16, 1i8)])
+                .collect();
+            for (bi, bo) in &positions {
+                for (ei, eo) in &positions {
+                    for bea in [false, true] {
+                        for eea in [false, true] {
+                            let l = Link {
+                                begin: Pos { idx: *bi, out: *bo, ea: bea },
+                                end: Pos { idx: *ei, out: *eo, ea: eea },
+                                sorted: false,
+                                zw: false,
+                            };
+                            v.push(Case {
+                                text: text.to_string(),
+                                links: vec![l.clone()],
+                                csv: false,
+                            });
+                            if n >= 2 {
+                                // parent = text[1..n]
+                                let parent = Link {
+                                    begin: Pos {
+                                        idx: positions[1].0,
+                                        out: 0,
+                                        ea: false,
+                                    },
+                                    end: Pos { idx: u16::MAX, out: 0, ea: true },
+                                    sorted: true,
+                                    zw: false,
+                                };
+                                v.push(Case {
+                                    text: text.to_string(),
+                                    links: vec![parent, l],
+                                    csv: false,
+                                });
+                            }
+                        }
+                    }
+                }
+            }
+        }
+        v
+    }
+    fn exhaustive_note(&self, _tier: Tier) -> Option<String> {
+        None
+    }
+    fn health(&self, labels: &BTreeMap<String, u64>, evals: u64) -> Vec<String> {
+        let mut v = vec![];
+        if evals < 5000 {
+            return v;
+        }
+        let frac = |l: &str| labels.get(l).copied().unwrap_or(0) as f64 / evals as f64;
+        for (l, min) in [
+            ("multibyte", 0.5),
+            ("end-aligned", 0.5),
+            ("depth>=2", 0.3),
+            ("depth>=3", 0.1),
+            ("rejected", 0.25),
+            ("rejected.depth>=2", 0.08),
+            ("zero-width-at-begin", 0.03),
+            ("zero-width-at-end", 0.03),
+            ("empty-text", 0.01),
+            ("class.inverted", 0.03),
+            ("class.end-beyond-end", 0.03),
+            ("class.before-begin", 0.03),
+        ] {
+            if frac(l) < min {
+                v.push(format!("label {} occurs in {:.2}% of cases, expected >= {:.0}%", l, frac(l) * 100.0, min * 100.0));
+            }
+        }
+        v
+    }
+
+    fn run(&self, case: &Case) -> Outcome {
+        let mut out = Outcome::new();
+        if case.links.is_empty() || case.links.len() > 8 {
+            out.skip("invalid case");
+            return out;
+        }
+        let text: Vec<char> = case.text.chars().collect();
+        let n = text.len();
+        let multibyte = case.text.len() != n;
+        if multibyte {
+            out.label("multibyte");
+        }
+        if n == 0 {
+            out.label("empty-text");
+        }
+        let mut store = AnnotationStore::default();
+        store
+            .add_resource(TextResourceBuilder::new().with_id("r").with_text(case.text.clone()))
+            .expect("add_resource");
+
+        let mut accepted: Vec<Accepted> = vec![];
+        let mut any_end_aligned = false;
+        let mut any_rejected = false;
+
+        for (i, link) in case.links.iter().enumerate() {
+            let (parent, parent_handle) = match accepted.last() {
+                Some(a) => (a.abs, Some(a.handle)),
+                None => ((0, n), None),
+            };
+            let plen = parent.1 - parent.0;
+            let (cb, ce) = resolve_link(link, plen);
+            let offset = stam_offset(&cb, &ce);
+            let mode = mode_name(&cb, &ce);
+            let target = if parent_handle.is_some() { "annotation" } else { "resource" };
+            let expected = oracle_range(&cb, &ce, plen);
+            let depth = accepted.len() + 1;
+            if cb.is_end() || ce.is_end() {
+                any_end_aligned = true;
+                out.label("end-aligned");
+            }
+            out.label(&format!("mode.{}", mode));
+            let context = format!("text={:?} link#{} depth={} parent={:?} offset=({:?},{:?})", case.text, i, depth, parent, cb, ce);
+            let class = match expected {
+                Some(r) => valid_shape(r, plen),
+                None => invalid_class(&cb, &ce, plen),
+            };
+            match expected {
+                Some(_) => {
+                    out.label(class);
+                }
+                None => {
+                    any_rejected = true;
+                    out.label("rejected");
+                    out.label(&format!("class.{}", class));
+                    if depth >= 2 {
+                        out.label("rejected.depth>=2");
+                    }
+                }
+            }
+
+            // ---- read-only entry points, before the annotation exists -----------------------------
+            {
+                let store = &store;
+                let resource = store.resource("r").expect("resource");
+                // the parent as a selection
+                let parent_sel: Option<ResultTextSelection> = match parent_handle {
+                    Some(h) => store.annotation(h).and_then(|a| a.textselections().next()),
+                    None => None,
+                };
+                let want_text = expected.map(|r| slice(&text, (parent.0 + r.0, parent.0 + r.1)));
+                let want_abs = expected.map(|r| (parent.0 + r.0, parent.0 + r.1));
+                // (entry, result as (begin,end,text) or error)
+                let mut probes: Vec<(&'static str, Result<Result<(usize, usize, String), String>, PanicInfo>)> = vec![];
+                if let Some(ps) = &parent_sel {
+                    probes.push((
+                        "findtext.selection",
+                        catch(|| {
+                            ps.textselection(&offset)
+                                .map(|t| (t.begin(), t.end(), t.text().to_string()))
+                                .map_err(|e| err_name(&e))
+                        }),
+                    ));
+                    probes.push((
+                        "lowlevel.selection",
+                        catch(|| {
+                            ps.inner()
+                                .textselection_by_offset(&offset)
+                                .map(|t| (t.begin(), t.end(), String::new()))
+                                .map_err(|e| err_name(&e))
+                        }),
+                    ));
+                    // the second implementation of FindText for selections
+                    if let ResultTextSelection::Bound(item) = ps {
+                        probes.push((
+                            "findtext.item",
+                            catch(|| {
+                                item.textselection(&offset)
+                                    .map(|t| (t.begin(), t.end(), t.text().to_string()))
+                                    .map_err(|e| err_name(&e))
+                            }),
+                        ));
+                    }
+                } else {
+                    probes.push((
+                        "findtext.resource",
+                        catch(|| {
+                            resource
+                                .textselection(&offset)
+                                .map(|t| (t.begin(), t.end(), t.text().to_string()))
+                                .map_err(|e| err_name(&e))
+                        }),
+                    ));
+                    probes.push((
+                        "lowlevel.resource",
+                        catch(|| {
+                            resource
+                                .as_ref()
+                                .textselection_by_offset(&offset)
+                                .map(|t| (t.begin(), t.end(), String::new()))
+                                .map_err(|e| err_name(&e))
+                        }),
+                    ));
+                }
+                for (entry, res) in probes {
+                    out.checks += 1;
+                    match res {
+                        Err(p) => out.fail("panic", format!("{}|{}", entry, p.signature()), format!("{}: {} panicked at {}:{}: {}", context, entry, p.file, p.line, p.msg)),
+                        Ok(Ok((b, e, t))) => match want_abs {
+                            None => out.fail(
+                                "reject",
+                                format!("{}|{}|{}", entry, mode, class),
+                                format!("{}: {} accepted an offset that is not a range ({}) and returned [{},{})", context, entry, class, b, e),
+                            ),
+                            Some(abs) => {
+                                if (b, e) != abs {
+                                    out.fail("text", format!("{}|range", entry), format!("{}: {} returned [{},{}) expected {:?}", context, entry, b, e, abs));
+                                } else if !entry.starts_with("lowlevel") && Some(&t) != want_text.as_ref() {
+                                    out.fail("text", format!("{}|text", entry), format!("{}: {} returned text {:?} expected {:?}", context, entry, t, want_text));
+                                }
+                            }
+                        },
+                        Ok(Err(err)) => {
+                            if want_abs.is_some() {
+                                out.fail("accept", format!("{}|{}|{}", entry, mode, class), format!("{}: {} refused a valid offset ({}) with {}", context, entry, class, err));
+                            }
+                        }
+                    }
+                }
+                // text_by_offset
+                let mut tbos: Vec<(&'static str, Result<Result<String, String>, PanicInfo>)> = vec![];
+                match &parent_sel {
+                    Some(ps) => {
+                        tbos.push(("text_by_offset.selection", catch(|| ps.text_by_offset(&offset).map(|s| s.to_string()).map_err(|e| err_name(&e)))));
+                        if let ResultTextSelection::Bound(item) = ps {
+                            tbos.push(("text_by_offset.item", catch(|| item.text_by_offset(&offset).map(|s| s.to_string()).map_err(|e| err_name(&e)))));
+                        }
+                    }
+                    None => tbos.push(("text_by_offset.resource", catch(|| resource.text_by_offset(&offset).map(|s| s.to_string()).map_err(|e| err_name(&e))))),
+                }
+                for tbo in tbos {
+                    out.checks += 1;
+                    match tbo.1 {
+                        Err(p) => out.fail("panic", format!("{}|{}", tbo.0, p.signature()), format!("{}: {} panicked at {}:{}: {}", context, tbo.0, p.file, p.line, p.msg)),
+                        Ok(Ok(t)) => match &want_text {
+                            None => out.fail(
+                                "reject",
+                                format!("{}|{}|{}", tbo.0, mode, class),
+                                format!("{}: {} accepted an offset that is not a range ({}) and returned {:?}", context, tbo.0, class, t),
+                            ),
+                            Some(w) => {
+                                if &t != w {
+                                    out.fail("text", format!("{}|text", tbo.0), format!("{}: {} returned {:?} expected {:?}", context, tbo.0, t, w));
+                                }
+                            }
+                        },
+                        Ok(Err(err)) => {
+                            if want_text.is_some() {
+                                out.fail("accept", format!("{}|{}|{}", tbo.0, mode, class), format!("{}: {} refused a valid offset ({}) with {}", context, tbo.0, class, err));
+                            }
+                        }
+                    }
+                }
+            }
+
+            // ---- annotate ---------------------------------------------------------------------------
+            let id = format!("A{}", i);
+            let before = store.annotations_len();
+            let selector = match parent_handle {
+                Some(h) => SelectorBuilder::annotationselector(h, Some(offset.clone())),
+                None => SelectorBuilder::textselector("r", offset.clone()),
+            };
+            let builder = AnnotationBuilder::new().with_id(id.clone()).with_target(selector).with_data("s", "k", i as isize);
+            let res = catch(|| store.annotate(builder));
+            out.checks += 1;
+            match (expected, res) {
+                (_, Err(p)) => {
+                    out.fail("panic", format!("annotate|{}", p.signature()), format!("{}: annotate panicked at {}:{}: {}", context, p.file, p.line, p.msg));
+                    break;
+                }
+                (Some(r), Ok(Ok(h))) => {
+                    accepted.push(Accepted {
+                        id,
+                        handle: h,
+                        parent,
+                        abs: (parent.0 + r.0, parent.0 + r.1),
+                        given: (cb, ce),
+                        on_resource: parent_handle.is_none(),
+                    });
+                    if accepted.len() >= 2 {
+                        out.label("depth>=2");
+                    }
+                    if accepted.len() >= 3 {
+                        out.label("depth>=3");
+                    }
+                }
+                (Some(_), Ok(Err(e))) => {
+                    out.fail("accept", format!("annotate|{}|{}|{}", target, mode, class), format!("{}: annotate refused a valid offset ({}): {}", context, class, e));
+                }
+                (None, Ok(Ok(_))) => {
+                    out.fail(
+                        "reject",
+                        format!("annotate|{}|{}|{}", target, mode, class),
+                        format!("{}: annotate accepted an offset that is not a range 0<=b<=e<={} ({})", context, plen, class),
+                    );
+                    // the store now holds an annotation the oracle knows nothing about; stop here
+                    break;
+                }
+                (None, Ok(Err(_))) => {
+                    out.checks += 1;
+                    let after = store.annotations_len();
+                    if after != before || store.annotation(id.as_str()).is_some() {
+                        out.fail(
+                            "reject",
+                            format!("annotate-left-annotation|{}|{}|{}", target, mode, class),
+                            format!("{}: annotate returned Err but the store has {} annotation slots (before: {})", context, after, before),
+                        );
+                    }
+                }
+            }
+        }
+
+        // ---- every text selection the resource now knows is a range inside the text ----------------
+        {
+            let store = &store;
+            let resource = store.resource("r").expect("resource");
+            for ts in resource.as_ref().textselections_unsorted() {
+                out.checks += 1;
+                if !(ts.begin() <= ts.end() && ts.end() <= n) {
+                    out.fail(
+                        "reject",
+                        "stored-malformed-selection",
+                        format!(
+                            "text={:?} ({} codepoints): the resource holds the text selection [{},{}) which is not a range inside the text (chain {:?})",
+                            case.text,
+                            n,
+                            ts.begin(),
+                            ts.end(),
+                            case.links
+                        ),
+                    );
+                }
+            }
+        }
+
+        // ---- observations on accepted annotations -----------------------------------------------------
+        let store = &store;
+        let resource = store.resource("r").expect("resource");
+        for a in &accepted {
+            let plen = a.parent.1 - a.parent.0;
+            let rel = (a.abs.0 - a.parent.0, a.abs.1 - a.parent.0);
+            let want = slice(&text, a.abs);
+            let target = if a.on_resource { "resource" } else { "annotation" };
+            let context = format!("text={:?} annotation {} parent={:?} given=({:?},{:?}) expected range {:?}", case.text, a.id, a.parent, a.given.0, a.given.1, a.abs);
+            let Some(ann) = store.annotation(a.handle) else {
+                out.fail("accept", "annotation-missing", format!("{}: annotate returned a handle that does not resolve", context));
+                continue;
+            };
+            // text / text_simple / textselections
+            if let Some(texts) = guard(&mut out, "panic", "annotation.text()", || ann.text().map(|s| s.to_string()).collect::<Vec<_>>()) {
+                out.checks += 1;
+                if texts != vec![want.clone()] {
+                    out.fail("text", "annotation.text", format!("{}: text() = {:?} expected [{:?}]", context, texts, want));
+                }
+            }
+            if let Some(ts) = guard(&mut out, "panic", "annotation.text_simple()", || ann.text_simple().map(|s| s.to_string())) {
+                out.checks += 1;
+                if ts.as_deref() != Some(want.as_str()) {
+                    out.fail("text", "annotation.text_simple", format!("{}: text_simple() = {:?} expected Some({:?})", context, ts, want));
+                }
+            }
+            let tsels = guard(&mut out, "panic", "annotation.textselections()", || {
+                ann.textselections().map(|t| (t.begin(), t.end(), t.text().to_string())).collect::<Vec<_>>()
+            });
+            if let Some(tsels) = tsels {
+                out.checks += 1;
+                if tsels != vec![(a.abs.0, a.abs.1, want.clone())] {
+                    out.fail("text", "annotation.textselections", format!("{}: textselections() = {:?} expected [{:?}]", context, tsels, (a.abs.0, a.abs.1, &want)));
+                }
+            }
+            // reported offsets
+            let sel = ann.as_ref().target();
+            match guard(&mut out, "panic", "Selector::offset", || sel.offset(store)) {
+                Some(Some(o)) => check_reported(&mut out, "offset", target, &o, None, rel, plen, &context),
+                Some(None) => out.fail("report.resolve.none", format!("offset|{}", target), format!("{}: Selector::offset returned None", context)),
+                None => {}
+            }
+            let mut reported: Vec<Offset> = vec![];
+            for (m, mname) in MODES {
+                match guard(&mut out, "panic", "Selector::offset_with_mode", || sel.offset_with_mode(store, Some(m))) {
+                    Some(Some(o)) => {
+                        check_reported(&mut out, "offset_with_mode", target, &o, Some(mname), rel, plen, &context);
+                        reported.push(o);
+                    }
+                    Some(None) => {
+                        out.fail("report.resolve.none", format!("offset_with_mode|{}", target), format!("{}: Selector::offset_with_mode({}) returned None", context, mname))
+                    }
+                    None => {}
+                }
+            }
+            // the parent as a selection (the whole resource at depth 1)
+            let parent_sel = guard(&mut out, "panic", "resource.textselection(parent)", || resource.textselection(&Offset::simple(a.parent.0, a.parent.1)));
+            let Some(Ok(parent_sel)) = parent_sel else {
+                out.fail("accept", "parent-selection", format!("{}: the parent range is not selectable", context));
+                continue;
+            };
+            // low-level relative_offset / absolute_offset round trip
+            if let Some(Some(me)) = guard(&mut out, "panic", "annotation.textselections()", || ann.textselections().next()) {
+                for (m, mname) in MODES {
+                    let ro = guard(&mut out, "panic", "TextSelection::relative_offset", || me.inner().relative_offset(parent_sel.inner(), m));
+                    match ro {
+                        Some(Some(o)) => {
+                            check_reported(&mut out, "relative_offset", "selection", &o, Some(mname), rel, plen, &context);
+                            reported.push(o);
+                        }
+                        Some(None) => {
+                            out.fail("report.resolve.none", "relative_offset|selection", format!("{}: relative_offset({}) within the parent returned None", context, mname))
+                        }
+                        None => {}
+                    }
+                }
+            }
+            // every reported offset (if well-formed) is accepted back and gives the same range through
+            // FindText::textselection on the parent selection and TextSelection::absolute_offset
+            for o in &reported {
+                let (b, e) = (Cur::from_stam(&o.begin), Cur::from_stam(&o.end));
+                if !b.wellformed() || !e.wellformed() {
+                    out.dontcare += 1;
+                    continue;
+                }
+                let m = mode_name(&b, &e);
+                let r1 = guard(&mut out, "panic", "selection.textselection(reported)", || {
+                    parent_sel
+                        .textselection(o)
+                        .map(|t| (t.begin(), t.end(), t.text().to_string()))
+                        .map_err(|e| err_name(&e))
+                });
+                if let Some(r1) = r1 {
+                    out.checks += 1;
+                    if r1 != Ok((a.abs.0, a.abs.1, want.clone())) {
+                        out.fail(
+                            &format!("report.resolve.{}", m),
+                            "reresolve|findtext.selection",
+                            format!("{}: parent.textselection({:?}) = {:?} expected {:?}", context, o, r1, a.abs),
+                        );
+                    }
+                }
+                let r2 = guard(&mut out, "panic", "TextSelection::absolute_offset", || parent_sel.inner().absolute_offset(o).map_err(|e| err_name(&e)));
+                if let Some(r2) = r2 {
+                    out.checks += 1;
+                    let ok = match &r2 {
+                        Ok(ao) => ao.begin == Cursor::BeginAligned(a.abs.0) && ao.end == Cursor::BeginAligned(a.abs.1),
+                        Err(_) => false,
+                    };
+                    if !ok {
+                        out.fail(
+                            &format!("report.resolve.{}", m),
+                            "reresolve|absolute_offset",
+                            format!("{}: parent.absolute_offset({:?}) = {:?} expected {:?}", context, o, r2, a.abs),
+                        );
+                    }
+                }
+            }
+            // the absolute range expressed in all four modes against the resource
+            for (_, mname) in MODES {
+                let (b, e) = offset_in_mode(a.abs, n, mname);
+                let o = stam_offset(&b, &e);
+                let r = guard(&mut out, "panic", "resource.textselection", || {
+                    resource
+                        .textselection(&o)
+                        .map(|t| (t.begin(), t.end(), t.text().to_string()))
+                        .map_err(|e| err_name(&e))
+                });
+                if let Some(r) = r {
+                    out.checks += 1;
+                    if r != Ok((a.abs.0, a.abs.1, want.clone())) {
+                        out.fail(
+                            &format!("report.resolve.{}", mname),
+                            "reresolve|findtext.resource",
+                            format!("{}: resource.textselection({:?}) = {:?} expected {:?}", context, o, r, a.abs),
+                        );
+                    }
+                }
+            }
+        }
+
+        // ---- serialised offsets: JSON --------------------------------------------------------------------
+        if !accepted.is_empty() {
+            if let Some(jv) = guard(&mut out, "panic", "to_json_value", || store.to_json_value()) {
+                match jv {
+                    Err(e) => out.fail("report.resolve.json", "json|serialise", format!("text={:?}: to_json_value failed: {}", case.text, e)),
+                    Ok(v) => {
+                        let empty = vec![];
+                        let anns = v.get("annotations").and_then(|a| a.as_array()).unwrap_or(&empty);
+                        for a in &accepted {
+                            let plen = a.parent.1 - a.parent.0;
+                            let rel = (a.abs.0 - a.parent.0, a.abs.1 - a.parent.0);
+                            let target = if a.on_resource { "resource" } else { "annotation" };
+                            let context = format!("text={:?} annotation {} parent={:?} given=({:?},{:?})", case.text, a.id, a.parent, a.given.0, a.given.1);
+                            let found = anns.iter().find(|x| x.get("@id").and_then(|i| i.as_str()) == Some(a.id.as_str()));
+                            let off = found.and_then(|x| x.get("target")).and_then(|t| t.get("offset"));
+                            let cursors = off.and_then(|o| Some((parse_json_cursor(o.get("begin")?)?, parse_json_cursor(o.get("end")?)?)));
+                            match cursors {
+                                None => {
+                                    out.fail("report.resolve.json", format!("json|missing|{}", target), format!("{}: no parsable offset in the JSON output: {:?}", context, found))
+                                }
+                                Some((b, e)) => {
+                                    let o = stam_offset(&b, &e);
+                                    check_reported(&mut out, "json", target, &o, None, rel, plen, &context);
+                                }
+                            }
+                        }
+                    }
+                }
+            }
+        }
+
+        // ---- serialised offsets: CSV (file I/O, a fraction of the cases) ------------------------------------
+        if case.csv && !accepted.is_empty() {
+            out.label("csv");
+            let dir = scratch_dir();
+            let _ = std::fs::create_dir_all(&dir);
+            let storefile = dir.join("c.store.stam.csv");
+            // work on a copy obtained through JSON so that `store` stays untouched
+            let copy = guard(&mut out, "panic", "csv.copy", || {
+                store
+                    .to_json_string(&Config::default())
+                    .and_then(|s| AnnotationStore::from_str(&s, Config::default()))
+            });
+            if let Some(Ok(mut copy)) = copy {
+                let saved = guard(&mut out, "panic", "csv.save", || {
+                    copy.set_filename(storefile.to_str().expect("utf8 path"));
+                    copy.save()
+                });
+                match saved {
+                    Some(Ok(())) => {
+                        let mut table: Option<String> = None;
+                        if let Ok(rd) = std::fs::read_dir(&dir) {
+                            let mut names: Vec<_> = rd.filter_map(|e| e.ok()).map(|e| e.path()).collect();
+                            names.sort();
+                            for p in names {
+                                let name = p.file_name().and_then(|s| s.to_str()).unwrap_or("").to_string();
+                                if name.contains(".annotations.") && name.ends_with(".csv") {
+                                    table = std::fs::read_to_string(&p).ok();
+                                }
+                            }
+                        }
+                        match table {
+                            None => out.fail("report.resolve.csv", "csv|no-annotation-table", format!("text={:?}: no annotation table written in {:?}", case.text, dir)),
+                            Some(t) => {
+                                let mut lines = t.lines();
+                                let header = split_csv_line(lines.next().unwrap_or(""));
+                                let col = |name: &str| header.iter().position(|h| h == name);
+                                let (ci, cb, ce) = (col("Id"), col("BeginOffset"), col("EndOffset"));
+                                let rows: Vec<Vec<String>> = lines.map(split_csv_line).collect();
+                                for a in &accepted {
+                                    let plen = a.parent.1 - a.parent.0;
+                                    let rel = (a.abs.0 - a.parent.0, a.abs.1 - a.parent.0);
+                                    let target = if a.on_resource { "resource" } else { "annotation" };
+                                    let context = format!("text={:?} annotation {} parent={:?} given=({:?},{:?})", case.text, a.id, a.parent, a.given.0, a.given.1);
+                                    let row = ci.and_then(|ci| rows.iter().find(|r| r.get(ci).map(|s| s.as_str()) == Some(a.id.as_str())));
+                                    let cursors = match (row, cb, ce) {
+                                        (Some(r), Some(cb), Some(ce)) => match (r.get(cb).and_then(|s| parse_csv_cursor(s)), r.get(ce).and_then(|s| parse_csv_cursor(s))) {
+                                            (Some(b), Some(e)) => Some((b, e)),
+                                            _ => None,
+                                        },
+                                        _ => None,
+                                    };
+                                    match cursors {
+                                        None => out.fail(
+                                            "report.resolve.csv",
+                                            format!("csv|missing|{}", target),
+                                            format!("{}: no parsable offset in the CSV annotation table: {:?}", context, row),
+                                        ),
+                                        Some((b, e)) => {
+                                            let o = stam_offset(&b, &e);
+                                            check_reported(&mut out, "csv", target, &o, None, rel, plen, &context);
+                                        }
+                                    }
+                                }
+                            }
+                        }
+                    }
+                    Some(Err(e)) => out.fail("report.resolve.csv", "csv|save-failed", format!("text={:?}: saving as CSV failed: {}", case.text, e)),
+                    None => {}
+                }
+            } else if let Some(Err(e)) = copy {
+                out.fail("report.resolve.json", "json|reload-failed", format!("text={:?}: the JSON output does not load again: {}", case.text, e));
+            }
+            if std::env::var("VERIF_KEEP").is_err() {
+                let _ = std::fs::remove_dir_all(&dir);
+            }
+        }
+
+        out.nontrivial = multibyte && (any_end_aligned || accepted.len() >= 2 || any_rejected);
+        out
     }
 }
